@@ -57,9 +57,11 @@ def load() -> dict[str, Any]:
     from vf.engine.runner import Broken
 
     logging.disable(logging.CRITICAL)
-    if not callable(getattr(S, "time", None)):
-        raise Broken("seam gone: gallia.services.uds.server.time is not a callable module attribute")
-    S.time = CLOCK  # type: ignore[attr-defined]
+    from vf.engine import seams
+
+    # whatever the import style in server.py (`from time import time` or `import time`), the name is rebound
+    if seams.bind_clock(S, CLOCK) == 0:
+        raise Broken("seam gone: gallia.services.uds.server does not bind the wall clock under any known name")
     if not (isinstance(getattr(S, "RNG", None), type)):
         raise Broken("seam gone: gallia.services.uds.server.RNG")
     orig_rng = S.RNG
